@@ -48,7 +48,7 @@ def rule_lock_read(ctx, facts, prefix="C02-R1"):
             continue
         if rv["k"] == "agg" and rv.get("variant") == "Some":
             somes += 1
-            op = rv["ops"][0]
+            op = _strip_nonzero(r, rv["ops"][0])
             p = op_place(op)
             field_ok = _loads_field_chain(r, op, "next_reference_id")
             org = prov.origins_op(op)
@@ -83,6 +83,44 @@ def rule_lock_read(ctx, facts, prefix="C02-R1"):
             ctx.check(not swallowed, prefix, "read-error-as-absent|%s" % r.id,
                       "an I/O error while reading an existing lock is distinguished from \"no lock\" (found: the Err arm of `%s` returns None, the run falls back to scanning)" % c.name.split("::")[-1],
                       r.where(sb))
+
+
+_TEXT_ASSEMBLY = r"(hint::must_use|::concat|::join|fmt::format|::format::format_inner|::as_bytes|::into_bytes|::to_string|::to_owned|String::from|::into|::as_str|::to_vec|Arguments::<.*>::new\w*|Arguments::new\w*|Argument::<.*>::new_display|fmt::rt::Argument::new_display|::deref|::borrow|::as_ref|::unwrap)$"
+
+
+def _through_text_assembly(prov, org, depth=0):
+    """origins of a text value, looking through calls that only assemble / convert text from their arguments
+    (`[a, b].concat()`, `format!`, `as_bytes()`): what matters is which values the text is made of"""
+    out = set()
+    for o in org:
+        if o[0] == "call" and depth < 8 and o[1].args and (o[1].matches(_TEXT_ASSEMBLY) or re.search(_TEXT_ASSEMBLY, o[1].full or "")):
+            for a in o[1].args:
+                out |= _through_text_assembly(prov, prov.origins_op(a), depth + 1)
+        else:
+            out.add(o)
+    return out
+
+
+
+def _strip_nonzero(body, op, depth=0):
+    """`NonZeroU32::new(v)` .. `.get()`: the number is still v (0 excluded); returns the operand v, else op itself"""
+    p = op_place(op)
+    if p is None or depth > 8:
+        return op
+    for (bb, kind, d) in body.defs.get(p["l"], []):
+        if kind == "call" and d.matches(r"NonZero(U32)?(::<[^>]*>)?::get$") and d.args:
+            inner = _strip_nonzero(body, d.args[0], depth + 1)
+            return inner
+        if kind == "call" and d.matches(r"NonZero(U32)?(::<[^>]*>)?::new$") and d.args:
+            return d.args[0]
+        if kind == "assign" and d["rv"]["k"] == "use" and len(body.defs.get(p["l"], [])) == 1:
+            q = op_place(d["rv"]["op"])
+            if q is not None:
+                got = _strip_nonzero(body, d["rv"]["op"], depth + 1)
+                if got is not d["rv"]["op"]:
+                    return got
+    return op
+
 
 
 def _loads_field_chain(body, op, field, depth=0):
@@ -170,7 +208,7 @@ def rule_lock_covers(ctx, facts, prefix="C02"):
             content = c.args[1] if len(c.args) > 1 else None
             ok = False
             if content is not None:
-                org = wprov.origins_op(content)
+                org = _through_text_assembly(wprov, wprov.origins_op(content))
                 idx = _id_param_local(wb)
                 ok = idx is not None and ("param", idx) in org and all(o[0] == "const" or o == ("param", idx) for o in org)
             ctx.check(ok, prefix + "-R2", "writer-stores|%s" % wid, "the lock writer serialises exactly its `id` argument", c.where())
